@@ -93,6 +93,8 @@ pub struct Parser<'a> {
     arena: &'a Bump,
     current: Token<'a>,
     errors: Vec<ParseError<'a>>,
+    depth: usize,
+    height: usize,
 }
 
 #[derive(Debug, Clone)]
@@ -102,6 +104,13 @@ pub struct ParseError<'a> {
     pub line: u32,
     pub column: u32,
 }
+
+/// Upper bound on the nesting of a statement: the recursive-descent parser recurses once per level.
+pub const MAX_NESTING_DEPTH: usize = 200;
+/// Upper bound on the height of the syntax tree of a statement. Chains such as `a OR b OR c ...` are
+/// parsed iteratively but produce a tree as deep as the chain is long, and the planner and the
+/// evaluator walk that tree recursively.
+pub const MAX_TREE_HEIGHT: usize = 1000;
 
 #[derive(Debug)]
 pub struct ParseResult<'a> {
@@ -118,7 +127,41 @@ impl<'a> Parser<'a> {
             arena,
             current,
             errors: Vec::new(),
+            depth: 0,
+            height: 0,
         }
+    }
+
+    /// Every recursive production (statement, SELECT, expression, FROM item) passes through here:
+    /// nesting and tree height are bounded so that no statement text can exhaust the call stack of
+    /// the parser or of the recursive planner / evaluator passes over the tree it builds.
+    /// `self.height` is the height of the tallest subtree parsed so far inside the current call.
+    fn nested<T>(&mut self, f: impl FnOnce(&mut Self) -> Result<T>) -> Result<T> {
+        if self.depth >= MAX_NESTING_DEPTH {
+            bail!(
+                "statement is nested too deeply (more than {} levels)",
+                MAX_NESTING_DEPTH
+            );
+        }
+        self.depth += 1;
+        let outer = std::mem::replace(&mut self.height, 0);
+        let result = f(self);
+        let mine = self.height + 1;
+        self.height = outer.max(mine);
+        self.depth -= 1;
+        result
+    }
+
+    /// One more operator was put on top of what has been parsed in the current call.
+    fn grow(&mut self) -> Result<()> {
+        self.height += 1;
+        if self.height > MAX_TREE_HEIGHT {
+            bail!(
+                "expression is too complex (syntax tree higher than {} levels)",
+                MAX_TREE_HEIGHT
+            );
+        }
+        Ok(())
     }
 
     pub fn is_at_end(&self) -> bool {
@@ -325,6 +368,10 @@ impl<'a> Parser<'a> {
     }
 
     pub fn parse_statement(&mut self) -> Result<Statement<'a>> {
+        self.nested(|p| p.parse_statement_inner())
+    }
+
+    fn parse_statement_inner(&mut self) -> Result<Statement<'a>> {
         match self.peek() {
             Token::Keyword(Keyword::Select) | Token::Keyword(Keyword::With) => {
                 let select = self.parse_select()?;
@@ -413,6 +460,10 @@ impl<'a> Parser<'a> {
     }
 
     fn parse_select(&mut self) -> Result<SelectStmt<'a>> {
+        self.nested(|p| p.parse_select_inner())
+    }
+
+    fn parse_select_inner(&mut self) -> Result<SelectStmt<'a>> {
         let with = if self.check_keyword(Keyword::With) {
             Some(self.parse_with_clause()?)
         } else {
@@ -725,6 +776,10 @@ impl<'a> Parser<'a> {
     }
 
     fn parse_table_ref(&mut self) -> Result<&'a FromClause<'a>> {
+        self.nested(|p| p.parse_table_ref_inner())
+    }
+
+    fn parse_table_ref_inner(&mut self) -> Result<&'a FromClause<'a>> {
         if self.consume_token(&Token::LParen) {
             if self.check_keyword(Keyword::Select) || self.check_keyword(Keyword::With) {
                 let query = self.parse_select()?;
@@ -874,9 +929,15 @@ impl<'a> Parser<'a> {
     }
 
     fn parse_expr(&mut self, min_bp: u8) -> Result<Expr<'a>> {
+        self.nested(|p| p.parse_expr_inner(min_bp))
+    }
+
+    fn parse_expr_inner(&mut self, min_bp: u8) -> Result<Expr<'a>> {
         let mut lhs = self.parse_prefix()?;
 
         loop {
+            // every round of this loop puts one more operator on top of `lhs`
+            self.grow()?;
             let op = match self.peek() {
                 Token::Plus => Some((BinaryOperator::Plus, 10, 11)),
                 Token::Minus => Some((BinaryOperator::Minus, 10, 11)),
